@@ -45,6 +45,9 @@ typedef struct { int trig, a, b; int nact; act_t acts[MAXA]; } ent_t;
 static int g_hints = 8, g_pool = 0, g_closefd = 0;    /* closefd: cb_close closes the descriptor;
                                                        * 2 (flag R): and a context added in that callback takes
                                                        * over the closed descriptor's number (reconnect-on-close) */
+static int g_eintr, g_eintr_tick;    /* flag I: every other wait call first fails with EINTR (a signal arrived),
+                                       * unless an exit request is pending (then the extra pass of the loop would
+                                       * legitimately end the run one round earlier than the model does) */
 static int g_fdof[16];                /* current fd number of descriptor d's read end */
 static int g_reuse_fd = -1;           /* fd number released by the close callback that is running */
 static int g_defer_add;               /* 1 while cb_close (mode R) collects its add actions */
@@ -313,6 +316,7 @@ int __real_epoll_wait(int epfd, struct epoll_event *evs, int max, int timeout);
 int __wrap_poll(struct pollfd *fds, nfds_t nfds, int timeout)
 {
 	if (!g_ev) return __real_poll(fds, nfds, timeout);
+	if (g_eintr && g_ev->to_exit == 0 && ((g_eintr_tick++ & 1) == 0)) { errno = EINTR; return -1; }
 	for (;;) {
 		int n = __real_poll(fds, nfds, 0);
 		if (n != 0) { int e = errno; if (on_ready(n)) return 0; errno = e; return n; }
@@ -322,6 +326,7 @@ int __wrap_poll(struct pollfd *fds, nfds_t nfds, int timeout)
 int __wrap_select(int nf, fd_set *r, fd_set *w, fd_set *e, struct timeval *tv)
 {
 	if (!g_ev) return __real_select(nf, r, w, e, tv);
+	if (g_eintr && g_ev->to_exit == 0 && ((g_eintr_tick++ & 1) == 0)) { errno = EINTR; return -1; }
 	fd_set in = *r;
 	for (;;) {
 		struct timeval z = { 0, 0 };
@@ -334,6 +339,7 @@ int __wrap_select(int nf, fd_set *r, fd_set *w, fd_set *e, struct timeval *tv)
 int __wrap_epoll_wait(int epfd, struct epoll_event *evs, int max, int timeout)
 {
 	if (!g_ev) return __real_epoll_wait(epfd, evs, max, timeout);
+	if (g_eintr && g_ev->to_exit == 0 && ((g_eintr_tick++ & 1) == 0)) { errno = EINTR; return -1; }
 	for (;;) {
 		int n = __real_epoll_wait(epfd, evs, max, 0);
 		if (n != 0) { int e = errno; if (on_ready(n)) return 0; errno = e; return n; }
@@ -380,7 +386,7 @@ static int is_num(const char *s) { if (!*s) return 0; for (; *s; s++) if (*s < '
 
 static void vh_reset(void)
 {
-	g_hints = 8; g_pool = 0; g_closefd = 0; g_nd = 0; g_npre = 0; g_nent = 0; g_nidle_scripted = 0;
+	g_hints = 8; g_pool = 0; g_closefd = 0; g_eintr = 0; g_nd = 0; g_npre = 0; g_nent = 0; g_nidle_scripted = 0;
 	memset(g_rmode, 0, sizeof g_rmode);
 	for (int i = 0; i < g_nruns; i++) free(g_runs[i]);
 	g_nruns = 0;
@@ -450,10 +456,11 @@ static void vh_op(int argc, char **argv)
 	const char *op = argv[0];
 	if (!strcmp(op, "cfg") && argc >= 3 && is_num(argv[1])) {
 		g_hints = (int)vh_ll(argv[1]); g_pool = (int)vh_ll(argv[2]) != 0;
-		g_closefd = 0;
+		g_closefd = 0; g_eintr = 0;
 		for (int i = 3; i < argc; i++) {
 			if (!strcmp(argv[i], "C")) g_closefd = 1;
 			if (!strcmp(argv[i], "R")) g_closefd = 2;
+			if (!strcmp(argv[i], "I")) g_eintr = 1;
 		}
 		printf("ok\n"); return;
 	}
